@@ -218,3 +218,44 @@ Lemma explain_trace_first g locs w pend b v rest :
   (b, explain_verdict g w b (get_wbuild g b) (nth b locs [])) ::
   explain_trace g locs (fst (check_build_dirty g w b (get_wbuild g b))) pend rest.
 Proof. reflexivity. Qed.
+
+(* from the audit (W4: the statement above compares the steps only, silence would satisfy it): the
+   states the replay is in at its verdicts, and every entry of the trace is explain_verdict on the
+   state of its verdict *)
+Fixpoint verdict_states (g : wgraph) (w : wstate) (pend : option (nat * option (list bytes))) (evs : list wevent) : list (nat * wstate) :=
+  match evs with
+  | [] => []
+  | e :: rest =>
+    match e with
+    | WWrite n t => verdict_states g (mkW (fs_set (ws_fs w) n t) (ws_cache w) (ws_disc w) (ws_hashes w) (ws_tbl w) (ws_log w)) pend rest
+    | WVerdict b v => (b, w) :: verdict_states g (fst (check_build_dirty g w b (get_wbuild g b))) pend rest
+    | WFinish b term reported =>
+      if (term =? 0)%N then verdict_states g w (Some (b, reported)) rest else verdict_states g w None rest
+    | WAdopt b => verdict_states g w (Some (b, Some (disc_of w b))) rest
+    | WRecord b _ | WNoRecord b =>
+      match pend with
+      | Some (b', reported) =>
+        match record_finished w b (get_wbuild g b) reported with
+        | Ok (w', _) => verdict_states g w' None rest
+        | _ => []
+        end
+      | None => []
+      end
+    end
+  end.
+
+Lemma explain_trace_is_verdicts g locs : forall evs w pend,
+  explain_trace g locs w pend evs =
+  map (fun bw => (fst bw, explain_verdict g (snd bw) (fst bw) (get_wbuild g (fst bw)) (nth (fst bw) locs []))) (verdict_states g w pend evs).
+Proof.
+  induction evs as [|e evs IH]; intros w pend; [reflexivity|].
+  destruct e as [b v|b term reported|b h|b|n t|b]; cbn [explain_trace verdict_states map fst snd].
+  - f_equal. apply IH.
+  - destruct (term =? 0)%N; apply IH.
+  - destruct pend as [[b' rep]|]; [|reflexivity].
+    destruct (record_finished w b (get_wbuild g b) rep) as [[w1 o]| | | |]; try reflexivity. apply IH.
+  - destruct pend as [[b' rep]|]; [|reflexivity].
+    destruct (record_finished w b (get_wbuild g b) rep) as [[w1 o]| | | |]; try reflexivity. apply IH.
+  - apply IH.
+  - apply IH.
+Qed.
